@@ -383,6 +383,10 @@ def splitCompute : List (Branch α) → List α → Strm α
   | .seqB _ :: bs, h => splitCompute bs h
   | .fcB pre _ compute :: bs, h => (compute (bindS pre (.ofList h)).vals).andThen (splitCompute bs h)
 
+/-- the branches of a `Split` all of whose sequences are stateless `Sequence`s -/
+def seqBranches (brs : List (Stage α)) : List (Branch α) := brs.map (fun b => .seqB (fun _ => b))
+
+
 def Branch.isFc : Branch α → Bool
   | .fcB .. => true
   | .seqB _ => false
